@@ -47,7 +47,7 @@ def merged_tables(defs):
     return tb, td
 
 
-def gen_defs(rng, redefine=None):
+def gen_defs(rng, redefine=None, force_wrap=False):
     """1..4 new class 48-63 elements, 1..3 sequences over them (incl. a replication-only NCEP sequence and its use)"""
     b = {}
     n = rng.randint(1, 4)
@@ -65,20 +65,33 @@ def gen_defs(rng, redefine=None):
     d[361001] = ('SEQ ONE', [rng.choice(elems), 12101][:rng.choice([1, 2])] + [rng.choice(elems)])
     if rng.random() < 0.7:
         d[361002] = ('SEQ TWO', [rng.choice(elems), 101000 + rng.randint(1, 3), rng.choice(elems)])
-    if rng.random() < 0.6:
+    if force_wrap or rng.random() < 0.6:
         d[360002] = ('DRP8BIT', [101000, 31001])
         tops = [rng.choice(elems), 360002, 361001]
         if rng.random() < 0.6 and 361002 in d:
             tops += [360002, 361002]
         d[361010] = ('TOP', tops)
+        if force_wrap or rng.random() < 0.6:
+            # the sequence that uses the replication-only sequence sits inside an ordinary replication with explicit members
+            d[361011] = ('WRAP', [101000 + rng.choice([2, 3]), 361010] if rng.random() < 0.5 else [rng.choice(elems), 101000, 31001, 361010])
     return b, d
+
+
+FORCE_WRAP = [False]
 
 
 def gen_data(rng, tabs, defs):
     b, d = defs[-1]
-    tops = [x for x in (361010, 361002, 361001) if x in d]
-    ids = [rng.choice(tops)] + rng.sample(list(b), 1) + [12101, 1001]
+    tops = [x for x in (361011, 361010, 361002, 361001) if x in d]
+    if 361011 in d and (FORCE_WRAP[0] or rng.random() < 0.6):
+        tops = [361011]
+    top = rng.choice(tops)
+    ids = [top] + rng.sample(list(b), 1) + [12101, 1001]
     rng.shuffle(ids)
+    if top in (361010, 361002) and rng.random() < 0.5:
+        # ... or inside a replication of the message's own template
+        k = ids.index(top)
+        ids[k:k + 1] = [101000, 31001, top] if rng.random() < 0.5 else [101002, top]
     nsub = rng.choice([1, 2])
     comp = rng.random() < 0.4
     tree = R.build_tree(ids, tabs, ncep=True)
@@ -141,8 +154,10 @@ def run(job):
               'each stream in a fresh process; with and without template compilation; plus tests/data/prepbufr.bufr as a monitor run',
               'quick: 14 streams; thorough: 250 streams')
     for k in range(14 if quick else 250):
-        defs = [gen_defs(rng)]
-        two = rng.random() < 0.5
+        # the first streams are directed: a replication-only sequence used below an ordinary replication, one definition message
+        FORCE_WRAP[0] = k < 5
+        defs = [gen_defs(rng, force_wrap=FORCE_WRAP[0])]
+        two = rng.random() < 0.5 and not FORCE_WRAP[0]
         if two:
             redefine = list(defs[0][0]) if rng.random() < 0.6 else [48011 + i for i in range(rng.randint(1, 2))]
             b2, d2 = gen_defs(rng, redefine)
